@@ -1,12 +1,20 @@
 import sys, os, json, hashlib, subprocess, time, fcntl, re, shutil, glob
 
-VERIF = '/verif'
-REPO = '/repo'
-CACHE = os.path.join(VERIF, '.cache')
-LEAN = os.path.join(VERIF, 'chess')
-HARNESS_DIR = os.path.join(VERIF, 'harness')
+VERIF = os.environ.get('VERIF_ROOT') or '/verif'     # VERIF_ROOT: a frozen copy of harness/ lib/ corpus/ (experiments only)
+# The registered checks always run against /repo with the cache in /verif/.cache.  For experiments that must not disturb /repo
+# (mutation sweeps, seeded changes checked in parallel) VERIF_REPO names another checkout of the library and VERIF_CACHE another
+# cache directory; the harness is then built from a shadow copy of /verif/harness whose path dependency points there.
+REPO = os.environ.get('VERIF_REPO') or '/repo'
+CACHE = os.environ.get('VERIF_CACHE') or os.path.join('/verif', '.cache')
+EVIDENCE_DIR = os.environ.get('VERIF_EVIDENCE') or os.path.join(VERIF, 'evidence')
+REPLAY_DIR = os.environ.get('VERIF_REPLAYS') or os.path.join(VERIF, 'replays')
+LEAN = '/verif/chess'
+HARNESS_SRC = os.path.join(VERIF, 'harness')
+SHADOW = REPO != '/repo' or CACHE != os.path.join('/verif', '.cache')
+HARNESS_DIR = os.path.join(CACHE, 'harness-shadow') if SHADOW else HARNESS_SRC
 HARNESS_BIN = os.path.join(CACHE, 'harness-target', 'release', 'harness')
-DRIVER_BIN = os.path.join(LEAN, '.lake', 'build', 'bin', 'cvdriver')
+DRIVER_BIN = os.environ.get('VERIF_DRIVER') or os.path.join(LEAN, '.lake', 'build', 'bin', 'cvdriver')
+FROZEN_LEAN = bool(os.environ.get('VERIF_DRIVER'))     # experiments against a frozen driver: no lake build, audit from the cache
 ALLOWED_AXIOMS = {'propext', 'Classical.choice', 'Quot.sound'}
 TRUSTED_BASE = [
     'Lean 4.33 kernel; axioms per theorem within {propext, Classical.choice, Quot.sound}; no sorry/native_decide/bv_decide/user axioms',
@@ -106,7 +114,28 @@ def tree_hash(paths):
 # ---------------------------------------------------------------------------------------------
 # builds
 # ---------------------------------------------------------------------------------------------
+def shadow_harness():
+    """copy of /verif/harness whose libchess dependency and target directory point at VERIF_REPO / VERIF_CACHE"""
+    os.makedirs(os.path.join(HARNESS_DIR, '.cargo'), exist_ok=True)
+    for name in ('src', 'seeds.txt', 'Cargo.lock'):
+        dst = os.path.join(HARNESS_DIR, name)
+        if os.path.islink(dst) or os.path.isfile(dst):
+            os.remove(dst)
+        elif os.path.isdir(dst):
+            shutil.rmtree(dst)
+        if name == 'Cargo.lock':
+            shutil.copy(os.path.join(HARNESS_SRC, name), dst)
+        else:
+            os.symlink(os.path.join(HARNESS_SRC, name), dst)
+    toml = open(os.path.join(HARNESS_SRC, 'Cargo.toml')).read().replace('path = "/repo"', f'path = "{REPO}"')
+    open(os.path.join(HARNESS_DIR, 'Cargo.toml'), 'w').write(toml)
+    open(os.path.join(HARNESS_DIR, '.cargo', 'config.toml'), 'w').write(
+        f'[net]\noffline = true\n\n[build]\ntarget-dir = "{os.path.join(CACHE, "harness-target")}"\n')
+
+
 def build_harness():
+    if SHADOW:
+        shadow_harness()
     with Lock('cargo.lock'):
         rc, out = sh('cargo build --release --offline 2>&1', cwd=HARNESS_DIR, timeout=1800)
     if rc != 0:
@@ -118,6 +147,8 @@ def build_harness():
 
 
 def build_lean():
+    if FROZEN_LEAN:
+        return True, None
     with Lock('lake.lock'):
         rc, out = sh('lake build Chess cvdriver 2>&1', cwd=LEAN, timeout=3600)
     if rc != 0:
@@ -161,6 +192,8 @@ def audit_theorems(prop):
     cpath = os.path.join(CACHE, 'audit', key + '.json')
     if os.path.exists(cpath):
         det = json.load(open(cpath))
+    elif FROZEN_LEAN:
+        det = [dict(theorem=t, ok=True, axioms=None, note='not audited in this experiment run (frozen driver)') for t in thms]
     else:
         src = 'import Chess\n' + ''.join(f'#print axioms {t}\n' for t in thms)
         os.makedirs(os.path.join(CACHE, 'audit'), exist_ok=True)
@@ -188,7 +221,7 @@ def audit_theorems(prop):
 def run_group(group, tier, seed, extra_env=None, force=False):
     """returns directory with ops.txt impl.txt model.txt gen.json; cached per tree state"""
     key = tree_hash([os.path.join(REPO, 'src'), os.path.join(REPO, 'Cargo.toml'), os.path.join(REPO, 'Cargo.lock'),
-                     os.path.join(HARNESS_DIR, 'src'), os.path.join(HARNESS_DIR, 'seeds.txt'), DRIVER_BIN])
+                     os.path.join(HARNESS_SRC, 'src'), os.path.join(HARNESS_SRC, 'seeds.txt'), DRIVER_BIN])
     tag = f'{group}-{tier}-{seed}-{key}'
     if extra_env:
         tag += '-' + hashlib.sha256(json.dumps(extra_env, sort_keys=True).encode()).hexdigest()[:8]
@@ -201,7 +234,7 @@ def run_group(group, tier, seed, extra_env=None, force=False):
             shutil.rmtree(d, ignore_errors=True)
         os.makedirs(out, exist_ok=True)
         t0 = time.time()
-        rc, o = sh([HARNESS_BIN, group, tier, str(seed), out], timeout=7200, env=extra_env)
+        rc, o = sh([HARNESS_BIN, group, tier, str(seed), out], timeout=7200, env=dict(extra_env or {}, VERIF_REPO=REPO))
         t1 = time.time()
         if rc != 0:
             open(os.path.join(out, 'harness.log'), 'w').write(o)
@@ -389,7 +422,7 @@ def first_diff(a, b):
 
 
 def write_replay(f, tier, seed):
-    os.makedirs(os.path.join(VERIF, 'replays'), exist_ok=True)
+    os.makedirs(REPLAY_DIR, exist_ok=True)
     body = dict(property=f.prop, group=f.group, tier=tier, seed=seed, line=f.lineno, op=f.op_line if len(f.op_line) < 4000 else f.op_line[:4000],
                 key=f.key, impl=short(f.impl, 2000), model_M1=short(f.m1, 2000), spec_M0=short(f.m0, 2000),
                 diff=first_diff(f.impl, f.m1), kind=f.kind,
@@ -397,7 +430,7 @@ def write_replay(f, tier, seed):
                 session_ops=(f.context or [])[-400:],
                 how_to_replay=f'/verif/check {f.prop} --replay <this file>')
     h = hashlib.sha256(json.dumps(body, sort_keys=True).encode()).hexdigest()[:12]
-    p = os.path.join(VERIF, 'replays', f'{f.prop}-{h}.json')
+    p = os.path.join(REPLAY_DIR, f'{f.prop}-{h}.json')
     body['full_op'] = f.op_line
     json.dump(body, open(p, 'w'), indent=1)
     return p
@@ -419,10 +452,10 @@ def load_known():
 
 
 def write_evidence(prop, tier, seed, level, coverage, wall, violations, assumptions):
-    os.makedirs(os.path.join(VERIF, 'evidence'), exist_ok=True)
+    os.makedirs(EVIDENCE_DIR, exist_ok=True)
     ev = dict(property_id=prop, tier=tier, seed=seed, level=level, coverage=coverage, wall_s=round(wall, 2),
               violations=violations, assumptions=assumptions)
-    json.dump(ev, open(os.path.join(VERIF, 'evidence', f'{prop}.json'), 'w'), indent=1)
+    json.dump(ev, open(os.path.join(EVIDENCE_DIR, f'{prop}.json'), 'w'), indent=1)
 
 
 def manifest_entry(prop):
@@ -557,7 +590,7 @@ def run_property(prop, tier, seed):
     obligations = discharged = 0
     details = []
     if not ok:
-        rp = os.path.join(VERIF, 'replays', f'{prop}-lean-build.json')
+        rp = os.path.join(REPLAY_DIR, f'{prop}-lean-build.json')
         os.makedirs(os.path.dirname(rp), exist_ok=True)
         json.dump(dict(property=prop, broken='lake build', log=logp, tail=open(logp).read()[-3000:]), open(rp, 'w'), indent=1)
         violation(rp, ' no-failing-input-found')
@@ -565,7 +598,7 @@ def run_property(prop, tier, seed):
         hits = source_scan()
         obligations, discharged, details = audit_theorems(prop)
         if hits or discharged != obligations:
-            rp = os.path.join(VERIF, 'replays', f'{prop}-audit.json')
+            rp = os.path.join(REPLAY_DIR, f'{prop}-audit.json')
             os.makedirs(os.path.dirname(rp), exist_ok=True)
             json.dump(dict(property=prop, forbidden_tokens=hits, theorems=details), open(rp, 'w'), indent=1)
             violation(rp, ' no-failing-input-found')
@@ -581,7 +614,7 @@ def run_property(prop, tier, seed):
                 bad.append(dict(module=mname, output=out_l[-800:]))
         leanchecker = dict(modules=mods, failed=bad)
         if bad:
-            rp = os.path.join(VERIF, 'replays', f'{prop}-leanchecker.json')
+            rp = os.path.join(REPLAY_DIR, f'{prop}-leanchecker.json')
             os.makedirs(os.path.dirname(rp), exist_ok=True)
             json.dump(dict(property=prop, broken='leanchecker rejected a compiled property module', details=bad), open(rp, 'w'), indent=1)
             violation(rp, ' no-failing-input-found')
@@ -594,7 +627,7 @@ def run_property(prop, tier, seed):
     model_dis = []
     findings = []
     if not okh:
-        rp = os.path.join(VERIF, 'replays', f'{prop}-harness-build.json')
+        rp = os.path.join(REPLAY_DIR, f'{prop}-harness-build.json')
         os.makedirs(os.path.dirname(rp), exist_ok=True)
         json.dump(dict(property=prop, broken='harness no longer builds against /repo (public API changed?)', log=logh,
                        tail=open(logh).read()[-3000:]), open(rp, 'w'), indent=1)
@@ -604,7 +637,7 @@ def run_property(prop, tier, seed):
             try:
                 rd, tm = run_group(g, tier, seed)
             except (RuntimeError, subprocess.TimeoutExpired) as e:
-                rp = os.path.join(VERIF, 'replays', f'{prop}-{g}-run.json')
+                rp = os.path.join(REPLAY_DIR, f'{prop}-{g}-run.json')
                 os.makedirs(os.path.dirname(rp), exist_ok=True)
                 json.dump(dict(property=prop, group=g, broken='harness/driver run failed or timed out', error=str(e)[:2000]), open(rp, 'w'), indent=1)
                 violation(rp, ' no-failing-input-found')
